@@ -35,7 +35,7 @@ class XslGen:
     # ------------------------------------------------------------------ expressions
     def gen(self, scope):
         vt = {k: ("str" if v == "any" else v) for k, v in scope.items() if v in ("num", "str", "bool", "ns", "any")}
-        return xpgen.Gen(self.r, vars_=vt)
+        return xpgen.Gen(self.r, vars_=vt, keys=getattr(self, "keynames", ()))
 
     def expr(self, scope, kind="any", d=None):
         g = self.gen(scope)
@@ -152,6 +152,11 @@ class XslGen:
             if rtfs and self.r.random() < 0.4:
                 return {"i": "copy-of", "sel": var(self.r.choice(rtfs))}
             return {"i": "copy-of", "sel": self.expr(scope, self.r.choice(["ns", "ns", "str", "num"]), d=1)}
+        if r < 0.955:
+            pool = [P(ch(t_name("a"))), P(ch(t_name("b"))), P(ch(T_ANY)), bin_("|", P(ch(t_name("a"))), P(ch(t_name("b")))), P(ch(T_TEXT)), P(ch(T_ANY), ch(t_name("b")))]
+            return {"i": "number", "instr": {"level": self.r.choice(["single", "multiple", "any"]), "hasCount": self.r.random() < 0.6, "count": self.r.choice(pool),
+                                             "hasFrom": False, "from": pool[0]},
+                    "fmt": cps(self.r.choice(["1", "1", "a", "I", "1.1", "(1)"]))}
         if r < 0.97:
             return {"i": self.r.choice(["comment", "pi"]), "name": cps("t"), "body": [{"i": "text", "v": cps("c")}] if self.r.random() < 0.5 else [{"i": "value-of", "sel": self.expr(scope, "str", d=0)}]}
         self.nvar = getattr(self, "nvar", 0) + 1
@@ -169,6 +174,17 @@ class XslGen:
     def stylesheet(self):
         gscope = {}
         gvars = []
+        keys = []
+        if self.r.random() < 0.4:
+            for nm in self.r.sample(["k", "j"], self.r.choice([1, 2])):
+                keys.append({"name": nm, "match": self.r.choice([P(ch(T_ANY)), P(ch(t_name("b"))), P(at(T_ANY)), P(ch(T_TEXT))]),
+                             "use": self.r.choice([P(at(t_name("x"))), P(step("self", T_NODE)), fn("name"), P(ch(T_TEXT)), fn("count", P(ch(T_NODE)))])})
+        self.keynames = [k["name"] for k in keys]
+        strip = []
+        if self.r.random() < 0.3:
+            for _ in range(self.r.choice([1, 2])):
+                nm = self.r.choice(["*", "a", "b", "c"])
+                strip.append({"strip": self.r.random() < 0.7, "name": nm})
         for i in range(self.r.choice([0, 0, 1, 2])):
             b, t = self.binding("g%d" % i, gscope, 1)
             gvars.append(b)
@@ -200,7 +216,7 @@ class XslGen:
         rid += 1
         templates.append({"rid": rid, "hasMatch": True, "match": P(abs_=True), "name": "", "mode": "", "hasPrio": False, "prio": {"k": "fin", "neg": False, "m": 0},
                           "params": [], "body": [{"i": "lre", "name": cps("out"), "attrs": [], "body": self.body(dict(gscope), 3, in_elem=True)}]})
-        return {"templates": templates, "gvars": gvars}
+        return {"templates": templates, "gvars": gvars, "keys": keys, "strip": strip}
 
 
 def scoping_stylesheet(rng):
@@ -275,7 +291,7 @@ def scoping_stylesheet(rng):
     else:
         templates[2]["body"] = [{"i": "lre", "name": cps("e"), "attrs": [], "body": caller_body()}]
     gvars = [{"name": "pb", "hasSel": True, "sel": lit("global"), "body": []}] if rng.random() < 0.3 else []
-    return {"templates": templates, "gvars": gvars}
+    return {"templates": templates, "gvars": gvars, "keys": [], "strip": []}
 
 
 # ------------------------------------------------------------------------------------------ rendering
@@ -346,6 +362,16 @@ def r_instr(x):
         return "<xsl:copy-of select=%s/>" % quoteattr(xpgen.render(x["sel"]))
     if i == "variable":
         return r_binding("variable", x)
+    if i == "number":
+        ins = x["instr"]
+        a = ' level="%s"' % ins["level"]
+        if ins["hasCount"]:
+            a += " count=%s" % quoteattr(xpgen.render(ins["count"]))
+        if ins["hasFrom"]:
+            a += " from=%s" % quoteattr(xpgen.render(ins["from"]))
+        if s(x["fmt"]) != "1":
+            a += " format=%s" % quoteattr(s(x["fmt"]))
+        return "<xsl:number%s/>" % a
     if i == "message":
         return "<xsl:message>m</xsl:message>"
     raise ValueError(i)
@@ -353,6 +379,10 @@ def r_instr(x):
 
 def render(ss):
     lines = ['<xsl:stylesheet version="1.0" %s>' % XSLNS]
+    for k in ss.get("keys", []):
+        lines.append('<xsl:key name="%s" match=%s use=%s/>' % (k["name"], quoteattr(xpgen.render(k["match"])), quoteattr(xpgen.render(k["use"]))))
+    for d in ss.get("strip", []):
+        lines.append('<xsl:%s-space elements="%s"/>' % ("strip" if d["strip"] else "preserve", d["name"]))
     for g in ss["gvars"]:
         lines.append(r_binding("variable", g))
     for t in ss["templates"]:
@@ -369,6 +399,15 @@ def render(ss):
         lines.append("<xsl:template%s>%s%s</xsl:template>" % (a, "".join(r_binding("param", b) for b in t["params"]), r_body(t["body"])))
     lines.append("</xsl:stylesheet>")
     return "\n".join(lines) + "\n"
+
+
+def spec_stylesheet(ss):
+    """the stylesheet as XSLTSem.tla sees it"""
+    out = spec_form({"templates": ss["templates"], "gvars": ss["gvars"]})
+    out["keys"] = [{"name": cps(k["name"]), "match": spec_form(k["match"]), "use": spec_form(k["use"])} for k in ss.get("keys", [])]
+    out["strip"] = [{"strip": d["strip"], "prec": 1,
+                     "test": {"t": "any"} if d["name"] == "*" else {"t": "name", "uri": [], "local": cps(d["name"])}} for d in ss.get("strip", [])]
+    return out
 
 
 def spec_form(x):
